@@ -144,6 +144,25 @@ func (H) Generate(prop string, rng *rand.Rand, tier string) any {
 		}
 		p.Steps = append(p.Steps, s)
 	}
+	if prop == "C12" && rng.IntN(10) == 0 {
+		// session life: a session is created, used several times in a row (every use restarts its five minutes),
+		// then left alone for longer than that and presented again
+		p.WithAuthenticator = true
+		user := 4 // permPool index of a user-level permission
+		mk := func(cred string) Step {
+			return Step{Kind: "req", Method: 0, ReqR: user, ReqW: user, Cred: cred, Auth: "token", AuthR: 4, AuthW: 4, Secs: 1}
+		}
+		p.Steps = append(p.Steps, mk("none"))
+		for i, n := 0, 1+rng.IntN(4); i < n; i++ {
+			p.Steps = append(p.Steps, Step{Kind: "advance", Secs: []int{1, 60, 240}[rng.IntN(3)]}, mk("cookie"))
+		}
+		p.Steps = append(p.Steps, Step{Kind: "advance", Secs: []int{290, 310, 360, 700}[rng.IntN(4)]}, mk("cookie"))
+		for i := range p.Steps {
+			if p.Steps[i].Kind == "reset" || p.Steps[i].Kind == "dev" {
+				p.Steps[i].Kind = "advance"
+			}
+		}
+	}
 	return p
 }
 
@@ -197,7 +216,8 @@ func (handlerT) ServeHTTP(w http.ResponseWriter, r *http.Request) {
 	if curObs != nil {
 		curObs.ran = true
 		if ar := api.GetAPIRequest(r); ar != nil {
-			curObs.token = ar.AuthToken
+			curObs.token = copyToken(ar.AuthToken)
+			tamper(ar)
 		}
 	}
 	if curPanic {
@@ -268,11 +288,31 @@ func (s *state) drainReports() []*modules.ModuleError {
 }
 
 // endpoint function bodies: record the invocation like the custom handler does
+// copyToken: what the handler saw, kept apart from what it does to its token afterwards.
+func copyToken(t *api.AuthToken) *api.AuthToken {
+	if t == nil {
+		return nil
+	}
+	c := *t
+	return &c
+}
+
+// tamper: a handler that raises the permissions in the token of its own request (what a credential grants to later
+// requests must not depend on it).
+func tamper(ar *api.Request) {
+	if ar != nil && ar.AuthToken != nil && curTamper {
+		ar.AuthToken.Read, ar.AuthToken.Write = api.PermitSelf, api.PermitSelf
+	}
+}
+
+var curTamper bool
+
 func epRan(ar *api.Request) {
 	if curObs != nil {
 		curObs.ran = true
 		if ar != nil {
-			curObs.token = ar.AuthToken
+			curObs.token = copyToken(ar.AuthToken)
+			tamper(ar)
 		}
 	}
 	if curPanic {
@@ -433,7 +473,13 @@ func (H) Execute(prop string, plan any, rc *simkit.RunCtx) {
 		case "advance":
 			time.Sleep(time.Duration(st.Secs) * time.Second)
 		case "dev":
-			_ = config.SetConfigOption(config.CfgDevModeKey, st.Dev)
+			if !st.Dev && st.Secs%3 == 0 {
+				// back to the default (off) by clearing the option
+				_ = config.SetConfigOption(config.CfgDevModeKey, nil)
+				rc.Probe("dev-mode-reset-to-default")
+			} else {
+				_ = config.SetConfigOption(config.CfgDevModeKey, st.Dev)
+			}
 			s.dev = st.Dev
 		case "reset":
 			// the client resets its authentication: its session is gone afterwards
@@ -594,6 +640,7 @@ func (s *state) request(si int, st Step, h http.Handler) {
 	ex := s.decide(st, m, acrm, reqR, reqW, origin, keyTok, cookieTok)
 	o := &obs{}
 	curObs, curPanic, curPanicLate = o, st.Panic, st.PanicLate
+	curTamper = st.Secs%2 == 0 // half of the handlers tamper with their token
 	before := s.authCalls
 	reportsBefore := len(s.drainReports())
 	rec := httptest.NewRecorder()
